@@ -765,6 +765,12 @@ class World:
         return self.fds.get(fd)
 
     def _os_open(self, path, flags, mode=0o777, *a, **kw):
+        try:
+            dev = DEV_STD.get(posixpath.normpath(SimFS.norm(path)))
+        except TypeError:
+            dev = None
+        if dev is not None:
+            return dev          # /dev/stdout and friends: the process's own descriptor
         writing = bool(flags & (os.O_WRONLY | os.O_RDWR | os.O_CREAT | os.O_TRUNC | os.O_APPEND))
         p = self._vpath(path, writing)
         if p is None:
